@@ -21,6 +21,21 @@ impl InterfaceInner {
             return None;
         }
 
+        // TCP is strictly point-to-point (RFC 9293 §3.9.2.3, RFC 1122 §4.2.3.10): a segment
+        // addressed to a broadcast or multicast address, or claiming to come from one, must be
+        // silently discarded. It must neither reach a socket (a wildcard listener would accept
+        // it) nor be answered with a reset (which would carry the broadcast address as source).
+        let is_unicast = |addr: &IpAddress| match addr {
+            #[cfg(feature = "proto-ipv4")]
+            IpAddress::Ipv4(addr) => addr.x_is_unicast() && !self.is_broadcast_v4(*addr),
+            #[cfg(feature = "proto-ipv6")]
+            IpAddress::Ipv6(addr) => addr.x_is_unicast(),
+        };
+        if !is_unicast(&src_addr) || !is_unicast(&dst_addr) {
+            net_debug!("TCP segment with non-unicast source or destination address");
+            return None;
+        }
+
         let tcp_packet = check!(TcpPacket::new_checked(ip_payload));
         let tcp_repr = check!(TcpRepr::parse(
             &tcp_packet,
